@@ -254,6 +254,13 @@ func vpC02Oracle(s vpC02Scn, r vpC02Result) string {
 	// wire output: at most one final response per request sent
 	br := bufio.NewReader(bytes.NewReader(r.Out))
 	finals := 0
+	// a 400 can be a legitimate answer only when something malformed was sent (trailing garbage, a trailer section
+	// that is none) or the configuration turns a well-formed request down with it (GetOnly)
+	wellFormedTrailer := s.Trailer == "" || s.Trailer == "X-Checksum: abc\r\n" || s.Trailer == "X-A: 1\r\nX-B: 2\r\n"
+	total400 := s.Pad + len(vpSmuggled) + s.Tail
+	r1Accepted := len(r.Disp) > 0 && r.Disp[0] == r1 // the server took R1 for well-formed (it ran its handler)
+	mayBe400 := len(s.Garbage) > 0 || !wellFormedTrailer || s.GetOnly || !r.BodySent || !r1Accepted ||
+		(s.MaxBody > 0 && s.MaxBody < total400) || (s.Proto10 && s.Chunked)
 	for {
 		if _, err := br.Peek(1); err != nil {
 			break
@@ -269,6 +276,9 @@ func vpC02Oracle(s vpC02Scn, r vpC02Result) string {
 		io.Copy(io.Discard, resp.Body)
 		if resp.StatusCode >= 200 {
 			finals++
+		}
+		if resp.StatusCode == StatusBadRequest && !mayBe400 {
+			return fmt.Sprintf("the server ran R1's handler and then answered 400, although R2 is well-formed and nothing follows it: bytes that belong to R1's body were parsed as a request head (%s)", vpQuote(r.Out, 400))
 		}
 	}
 	maxFinals := 2
